@@ -954,12 +954,16 @@ class PseudoNetCDFFile(PseudoNetCDFSelfReg, object):
         outf : PseudoNetCDFFile
             instance with dimensions reordered in variables
         """
+        oldorder = tuple(oldorder)
+        neworder = tuple(neworder)
+        if len(set(neworder)) != len(neworder):
+            raise ValueError(
+                'neworder names a dimension more than once: %s'
+                % (neworder,))
         if inplace:
             outf = self
         else:
             outf = self.copy(variables=True)
-        oldorder = tuple(oldorder)
-        neworder = tuple(neworder)
         for vk, vv in self.variables.items():
             varneworder = [dk for dk in neworder if dk in vv.dimensions]
             varorder = [dk for dk in vv.dimensions]
